@@ -13,6 +13,27 @@
    through the real binary.  Verdicts: exit status, presence / bytes of the two output files.
 3. FileBegin / Stage(template) / Stage(schema) / Write / Exit hook events of every run are validated by TLC against
    spec/SchemaTrace.tla (schema stage before write, validated whenever a schema is due, ...).
+
+Coverage table (clause / quantifier dimension of C12 -> where it is explored -> what is a single point or absent)
+  schemas: required / additionalProperties / typed   shapes RC RO CL OP + built-ins, families A B C D
+           beyond that                                enum, nested object (maxProperties / required), array items ($ref,
+                                                      true, false, empty file, redirect) -- families X, S.
+                                                      absent: pattern, min/max, oneOf/anyOf, remote $ref
+  template-data maps, any level, split over levels    6 levels; every single key and pair of placements (A); conforming above
+                                                      / violating below for the same key with look-alike values (L), null
+                                                      (L, N); nested maps whose violation or conformity exists only in the
+                                                      MERGED map (X).  single point: one value per kind; 2 files, 3 mocks
+  built-in and custom templates                       testify, matryer, file://, http:// (loopback).  absent: https://
+  schema location                                     default <template>.schema.json, explicit file/http, different per
+                                                      file (C), templated per interface (P)
+  with / without an available schema                  present, absent (404 / no file), unparsable, not a schema, empty
+  require-template-schema-exists                      unset/true/false at root, package, interface, configs entries; for
+                                                      built-ins too (R).  open: entries of one interface that disagree
+  before anything is written / file untouched         trace spec; pre-existing files with force-file-write (E)
+  per-run state                                       remote template cache: two files, same template, different schema /
+                                                      different require (B C D), any Go-map order (TLC).
+                                                      absent: a second run over the output of the first; slow or hanging
+                                                      HTTP server (the statement says nothing about time-outs)
 """
 import collections
 import http.server
